@@ -52,6 +52,54 @@ Example helpers_no_conflicting_access_refuted :
   /\ conflicts legacy_table = [("boltz.IsReferenceExistsError", "boltz.IsReferenceExistsError", "boltz.testErrorReferenceExists")].
 Proof. vm_compute. split; reflexivity. Qed.
 
+(* the two shapes of a shared mutable object behind a variable (seeded/C18-1, C18-2), as the
+   translator reports them: ast.Parse handing out one package-level query object whose paging the
+   callers set; GetSymbol storing cursor-carrying symbols in a store-wide synchronised cache *)
+Definition handed_out_table : list helper :=
+  [ {| h_name := "ast.Parse";
+       h_acc := [ {| a_loc := "*ast.matchAllQuery"; a_kind := AWrite; a_sync := false;
+                     a_via := "ast.Parse hands out the object; mutable through ast.queryNode.SetLimit" |};
+                  {| a_loc := "ast.matchAllQuery"; a_kind := ARead; a_sync := false; a_via := "ast.Parse" |} ] |} ].
+
+Definition published_value_table : list helper :=
+  [ {| h_name := "boltz.BaseStore.GetSymbol";
+       h_acc := [ {| a_loc := "boltz.BaseStore.compositeSymbols"; a_kind := AWrite; a_sync := true; a_via := "boltz.BaseStore.GetSymbol" |};
+                  {| a_loc := "boltz.BaseStore.compositeSymbols"; a_kind := ARead; a_sync := true; a_via := "boltz.BaseStore.GetSymbol" |};
+                  {| a_loc := "boltz.BaseStore.compositeSymbols[*]"; a_kind := AWrite; a_sync := false;
+                     a_via := "boltz.BaseStore.GetSymbol publishes a value mutable through boltz.compositeEntitySetSymbol.OpenCursor" |} ] |};
+    {| h_name := "boltz.BaseStore.IsPublicSymbol";
+       h_acc := [ {| a_loc := "boltz.BaseStore.publicSymbols"; a_kind := ARead; a_sync := false; a_via := "boltz.BaseStore.IsPublicSymbol" |} ] |} ].
+
+Example shared_object_tables_refuted :
+  conflicts handed_out_table = [("ast.Parse", "ast.Parse", "*ast.matchAllQuery")]
+  /\ conflicts published_value_table
+     = [("boltz.BaseStore.GetSymbol", "boltz.BaseStore.GetSymbol", "boltz.BaseStore.compositeSymbols[*]")]
+  /\ no_conflict handed_out_table = false /\ no_conflict published_value_table = false.
+Proof. vm_compute. repeat split; reflexivity. Qed.
+
+(* a synchronised cache of values without mutating methods is accepted: only the container is written *)
+Example ex_immutable_cache_ok :
+  no_conflict
+    [ {| h_name := "boltz.BaseStore.GetSymbol";
+         h_acc := [ {| a_loc := "boltz.BaseStore.cache"; a_kind := AWrite; a_sync := true; a_via := "boltz.BaseStore.GetSymbol" |};
+                    {| a_loc := "boltz.BaseStore.cache"; a_kind := ARead; a_sync := true; a_via := "boltz.BaseStore.GetSymbol" |} ] |} ] = true.
+Proof. vm_compute. reflexivity. Qed.
+
+(* the serial answers of the listing / dotted-symbol queries of the harness on a small state *)
+Example ex_new_queries :
+  let st := {| w_items := [it 1 10 (Some 103%N) 5 [3%N]; it 2 11 (Some 103%N) 2 []; it 3 12 None 7 [4%N]];
+               w_links := [([1%N], [103%N]); ([3%N], [103%N]); ([3%N], [104%N])] |} in
+  eval_query (QList 1 1) st = AIds [[2%N]]
+  /\ eval_query (QList (-1) 2) st = AIds [[1%N]; [2%N]]
+  /\ eval_query QAll st = AIds [[1%N]; [2%N]; [3%N]]
+  /\ eval_query (QF5 [103%N]) st = AIds [[1%N]; [3%N]]
+  /\ eval_query (QF6 [3%N]) st = AIds [[1%N]; [2%N]]
+  /\ eval_query (QF7 [11%N]) st = AIds [[1%N]; [3%N]]
+  /\ eval_query (QF8 [1%N]) st = AIds [[1%N]; [3%N]]
+  /\ eval_query (QSubCount [103%N] 1) st = AIds [[3%N]]
+  /\ eval_query (QPage 3 1 (-1)) st = AIds [[1%N]].
+Proof. vm_compute. repeat split; reflexivity. Qed.
+
 (* reads only, synchronised writes: no conflict *)
 Example ex_reads_only_ok :
   no_conflict
